@@ -20,7 +20,7 @@ sys.path.insert(0, HERE)
 import z3  # noqa: E402
 from vc import build, ir, symex, smt, replay  # noqa: E402
 
-CONTRACT_MODULES = ['calendar', 'period', 'clock', 'registrar', 'timezone', 'zoned', 'ruleday', 'encoding', 'printing', 'extended', 'binding', 'basicleaf', 'extleaf']
+CONTRACT_MODULES = ['calendar', 'period', 'clock', 'registrar', 'timezone', 'zoned', 'ruleday', 'encoding', 'printing', 'extended', 'binding', 'basicleaf', 'extleaf', 'datestrings']
 
 
 class Run:
